@@ -64,6 +64,25 @@ def parseOps : Nat → List String → Option (List Op × List String)
       pure (⟨sd, r, c, l, s⟩ :: ops, rest)
     | _ => none
 
+/-- steps of an editing history: `0 side row col len stroke` | `1 row col` (write) | `2 rs cs dh dw` (merge) |
+    `3 n` (add_row) | `4 n` (add_column). -/
+def parseSteps : Nat → List String → Option (List Step × List String)
+  | 0, rest => some ([], rest)
+  | n + 1, tag :: rest => do
+    let arity ← match tag with
+      | "0" => some 5 | "1" => some 2 | "2" => some 4 | "3" => some 1 | "4" => some 1 | _ => none
+    let (xs, rest) ← bTakeNats arity rest
+    let st ← match tag, xs with
+      | "0", [sd, r, c, l, s] => (sideOfNat sd).map fun sd => Step.stroke ⟨sd, r, c, l, s⟩
+      | "1", [r, c] => some (Step.write r c)
+      | "2", [rs, cs, dh, dw] => some (Step.merge rs cs dh dw)
+      | "3", [k] => some (Step.addRows k)
+      | "4", [k] => some (Step.addCols k)
+      | _, _ => none
+    let (ss, rest) ← parseSteps n rest
+    pure (st :: ss, rest)
+  | _, [] => none
+
 /-- cell kinds from the list of merged rectangles (first rectangle containing the cell). -/
 def kindOf (ms : List (Nat × Nat × Nat × Nat)) (r c : Nat) : Kind :=
   match ms.find? (fun m => decide (m.1 ≤ r ∧ r ≤ m.2.2.1 ∧ m.2.1 ≤ c ∧ c ≤ m.2.2.2)) with
@@ -82,7 +101,9 @@ def showBorderGrid (t : Table) (cs : Cells) : String :=
 /-- `border hist|pinned <R> <C> <maxOrder> <nmerge> (rs cs re ce)* <top> <left> <right> <bottom> <nops> (side row col len stroke)*`
     with each family `<nlayers> (idx nruns (origin len order stroke)*)*`.
     reply `ok <open grid> | <grid extracted from the stored layers>`; `hist` = repaired call order,
-    `pinned` = call order of the pinned commit. -/
+    `pinned` = call order of the pinned commit.
+    `border edits|editspinned …same head… <nsteps> (step)*` (see `parseSteps`): an editing history through `Doc.run`
+    (`Doc.runPinned`); reply `ok <rows> <cols> <open grid> | <grid extracted from the stored layers>` for the final table. -/
 def handleBorder : List String → Option String
   | mode :: rest => do
     let (xs, rest) ← bTakeNats 4 rest
@@ -96,11 +117,21 @@ def handleBorder : List String → Option String
       let (xs, rest) ← bTakeNats 1 rest
       match xs with
       | [nops] =>
-        let (ops, rest) ← parseOps nops rest
-        if rest ≠ [] then none else
         let t : Table := ⟨nr, nc, kindOf ms⟩
         let sc0 : Sidecar := ⟨ft, fl, fr, fb, mo⟩
         let st0 : St := ⟨extract t sc0, sc0⟩
+        if mode == "edits" || mode == "editspinned" then
+          let (steps, rest) ← parseSteps nops rest
+          if rest ≠ [] then none else
+          match (if mode == "edits" then Doc.run else Doc.runPinned) ⟨t, st0, false⟩ steps with
+          | .ok d =>
+            let d' := d.ensure
+            pure ("ok " ++ toString d.t.nrows ++ " " ++ toString d.t.ncols ++ " " ++ showBorderGrid d'.t d'.st.cells ++ " | " ++
+              showBorderGrid d.t (extract d.t d.st.sc))
+          | .error e => pure (showExc e)
+        else
+        let (ops, rest) ← parseOps nops rest
+        if rest ≠ [] then none else
         if mode == "hist" then
           match apiStrokes t st0 ops with
           | .ok st => pure ("ok " ++ showBorderGrid t st.cells ++ " | " ++ showBorderGrid t (extract t st.sc))
